@@ -168,3 +168,8 @@ def alias_arg(alias):
 
 def alias_list(alias):
     return [alias_value(a) for a in alias] if isinstance(alias, list) else [alias_value(alias)]
+
+
+def pick_first(v):
+    """Which of two functions a computed-function application uses (any total, deterministic rule will do)."""
+    return v is None or v is False or v == 0 or v == "a"
